@@ -37,7 +37,9 @@
 (***************************************************************************)
 EXTENDS Naturals, Sequences, FiniteSets, TLC, Json
 
-CONSTANTS Variant,    \* "force": the code as it is (`git worktree remove --force`, repo commit "fix: force removal of
+CONSTANTS DelMode,    \* "-D": the code as it is (`git branch -D`); "-d": regression domain (`git branch -d` refuses a
+                      \* branch that is not merged into the user's HEAD - temporary branches of diverging refs leak)
+          Variant,    \* "force": the code as it is (`git worktree remove --force`, repo commit "fix: force removal of
                       \* the temporary git worktree"); "orig": before that fix (regression domain, exhibits the leak)
           Ops,        \* subset of {"load", "check"}
           Refs1,      \* refs used for load_git / check(against=...)
@@ -61,18 +63,20 @@ CONSTANTS Variant,    \* "force": the code as it is (`git worktree remove --forc
 \*            griffe-x -> c3 (a USER branch that looks like one of our temporary branches),
 \*            wt-user -> c4 (checked out in a user worktree)
 \*   "WT" is not a ref: check() without base_ref loads the user's working tree with a plain load()
-AllRefs == {"v1", "feat/x", "feat-x", "x", "bad", "v0", "nope", "HEAD", "HEAD~1", "refs/tags/v1"}
+\*   side/y -> c6, a commit on top of c3 that is NOT an ancestor of HEAD (diverging history)
+AllRefs == {"v1", "feat/x", "feat-x", "x", "bad", "v0", "nope", "HEAD", "HEAD~1", "refs/tags/v1", "side/y"}
+MergedIntoHead(r) == r # "side/y"       \* the ref's commit is reachable from the user's HEAD
 Known(r) == r # "nope"
 \* _griffe.git._normalize: NFKC, runs of non-word characters -> "-", strip "-"
-Norm(r) == CASE r = "feat/x" -> "feat-x" [] r = "HEAD~1" -> "HEAD-1" [] r = "refs/tags/v1" -> "refs-tags-v1" [] OTHER -> r
+Norm(r) == CASE r = "feat/x" -> "feat-x" [] r = "HEAD~1" -> "HEAD-1" [] r = "refs/tags/v1" -> "refs-tags-v1" [] r = "side/y" -> "side-y" [] OTHER -> r
 TmpBranch(r) ==      \* f"griffe-{normref}"   (constant table: no string arithmetic in TLC)
   CASE r = "v1" -> "griffe-v1" [] r = "feat/x" -> "griffe-feat-x" [] r = "x" -> "griffe-x" [] r = "bad" -> "griffe-bad"
     [] r = "v0" -> "griffe-v0" [] r = "nope" -> "griffe-nope" [] r = "HEAD" -> "griffe-HEAD" [] r = "feat-x" -> "griffe-feat-x"
-    [] r = "HEAD~1" -> "griffe-HEAD-1" [] r = "refs/tags/v1" -> "griffe-refs-tags-v1" [] OTHER -> "griffe-?"
+    [] r = "HEAD~1" -> "griffe-HEAD-1" [] r = "refs/tags/v1" -> "griffe-refs-tags-v1" [] r = "side/y" -> "griffe-side-y" [] OTHER -> "griffe-?"
 Content(r) == IF r = "bad" THEN "syntax" ELSE IF r = "v0" THEN "absent" ELSE "ok"
-Api(r) == IF r \in {"v1", "x", "refs/tags/v1"} THEN 1 ELSE 2        \* API 2 removes a public function of API 1
+Api(r) == IF r \in {"v1", "x", "refs/tags/v1", "side/y"} THEN 1 ELSE 2        \* API 2 removes a public function of API 1
 LatestTagRef == "v1"
-UserBranches == {"main", "feat/x", "feat-x", "x", "griffe-x", "wt-user"}
+UserBranches == {"main", "feat/x", "feat-x", "x", "griffe-x", "wt-user", "side/y"}
 UserWorktrees == {[branch |-> "wt-user", tmp |-> "user", dir |-> TRUE]}
 Head0 == "main"
 NoExit == 9
@@ -177,12 +181,17 @@ Prune ==           \* git worktree prune               (drops entries whose dire
   /\ pc = "Prune" /\ Goto("BranchDelete") /\ lastrc' = 0
   /\ worktrees' = {w \in worktrees : w.dir}
   /\ UNCHANGED <<plan, intrs, phase, pending, inTry, head, status, branches, tmpDirs, wtDirty, imported, lines, outcome, exitcode>>
-BranchDelete ==    \* git branch -D griffe-<normref>   (refused while a registered worktree has it checked out)
+\* git branch -D / -d griffe-<normref>: both are refused while a registered worktree has the branch checked out;
+\* `-d` additionally refuses a branch whose tip is not merged into the user's HEAD.  Return code ignored.
+DeleteBranch(refused) ==
   /\ pc = "BranchDelete" /\ Goto("RmTmp")
-  /\ IF (\E w \in worktrees : w.branch = TmpBranch(Ref)) \/ TmpBranch(Ref) \notin branches
+  /\ IF refused \/ (\E w \in worktrees : w.branch = TmpBranch(Ref)) \/ TmpBranch(Ref) \notin branches
        THEN lastrc' = 1 /\ UNCHANGED branches
        ELSE lastrc' = 0 /\ branches' = branches \ {TmpBranch(Ref)}
   /\ UNCHANGED <<plan, intrs, phase, pending, inTry, head, status, worktrees, tmpDirs, wtDirty, imported, lines, outcome, exitcode>>
+BranchDeleteForce == DeleteBranch(FALSE)                          \* git branch -D
+BranchDeleteSafe == DeleteBranch(~MergedIntoHead(Ref))            \* git branch -d
+BranchDelete == IF DelMode = "-d" THEN BranchDeleteSafe ELSE BranchDeleteForce
 RmTmp ==           \* TemporaryDirectory.__exit__: rmtree(tmp_dir) - a checkout still inside it disappears with it
   /\ pc = "RmTmp" /\ Goto("EndLoad")
   /\ tmpDirs' = tmpDirs \ {Tmp} /\ wtDirty' = FALSE
